@@ -372,12 +372,64 @@ PROPS['C15'] = {
                     "parsed lists are compared with lists built node by node once the parser suite exists (C19/C20)"],
 }
 
+T_RULE = ("cases are histories on one knowledge base (programs of the engine generator without arithmetic, pre-screened: no panic, no occurs-check situation, "
+          "finite): 1-5 operations, each building a query with make_query and running it with next_solution (until None), solve (until `No more.` or the "
+          "timeout message) or solve_all; for solve/solve_all the verification hook makes the timer's flag write land at the n-th count_rules() call, n in 0 "
+          "(never) or 1-12; `--interleave` histories keep up to 3 query handles and interleave single next_solution() requests with the construction and the "
+          "complete runs of other queries; `--all-ticks` takes a program and places the write at EVERY tick 1..T+1 of its solve_all run, for solve and solve_all. "
+          "Compared with the model per operation: every returned string / resolved answer and the captured stdout. Non-trivial/distinct = distinct encoded history.")
+
+PROPS['C22'] = {
+    'module': 'SuironVerif.Props.C22',
+    'theorems': ['Suiron.C22.build_forgets_history', 'Suiron.C22.request_ignores_history', 'Suiron.C22.base_node_ignores_history', 'Suiron.C22.first_request_independent'],
+    'oracles': ['C22'],
+    'suites': {
+        'quick': [{'suite': 'timer', 'args': ['--props', 'C22', '--n', '400']}, {'suite': 'timer', 'args': ['--props', 'C22', '--n', '300', '--interleave']},
+                  {'suite': 'timer', 'args': ['--props', 'C22', '--real', '--n', '1'], 'timeout': 120}],
+        'thorough': [{'suite': 'timer', 'args': ['--props', 'C22', '--n', '8000']} for _ in range(6)] + [{'suite': 'timer', 'args': ['--props', 'C22', '--n', '8000', '--interleave']} for _ in range(4)]
+                    + [{'suite': 'timer', 'args': ['--props', 'C22', '--real', '--n', '6'], 'timeout': 300}],
+    },
+    'rule': T_RULE, 'design_ref': '5.22',
+    'assumptions': ["the theorems cover one request after the query has been built (same answer, successor node, counter and flag whatever the history); the lift to whole runs "
+                    "is by repeating the argument request by request and is decided on every run by the oracle",
+                    "oracle on the implementation: every whole-run operation of a history returns exactly what the same operation returns in a fresh process state; the "
+                    "requests on each kept handle return what the handle's query returns when run alone (ids canonicalised); a stress of 3000 start/cancel cycles of the "
+                    "query timer must leave the stop flag clear 1.3 s later",
+                    "KNOWN FINDING F1 (open): constructing a query while an earlier one is still being asked corrupts the earlier one (shared counter reset)"],
+}
+PROPS['C23'] = {
+    'module': 'SuironVerif.Props.C23',
+    'theorems': ['Suiron.C23.stop_monotone', 'Suiron.C23.no_spontaneous_stop', 'Suiron.C23.stopped_counts_zero', 'Suiron.C23.solve_spec', 'Suiron.C23.solve_never_early',
+                 'Suiron.C23.solveAllLoop_extends', 'Suiron.C23.solveAll_spec', 'Suiron.C23.solveAllLoop_no_stop', 'Suiron.C23.solveAll_never_early'],
+    'oracles': ['C23'],
+    'suites': {
+        'quick': [{'suite': 'timer', 'args': ['--props', 'C23', '--n', '400']}, {'suite': 'timer', 'args': ['--props', 'C23', '--n', '25', '--all-ticks']},
+                  {'suite': 'timer', 'args': ['--props', 'C23', '--real', '--n', '2'], 'timeout': 120}],
+        'thorough': [{'suite': 'timer', 'args': ['--props', 'C23', '--n', '8000']} for _ in range(4)] + [{'suite': 'timer', 'args': ['--props', 'C23', '--n', '500', '--all-ticks']} for _ in range(6)]
+                    + [{'suite': 'timer', 'args': ['--props', 'C23', '--real', '--n', '40'], 'timeout': 600}],
+    },
+    'exhaustive_in': {'quick': False, 'thorough': False},
+    'rule': T_RULE + " The `--real` run uses the real 1 s timer thread without the hook: 200 fast histories must never show the timeout message; searches of 12^7 "
+            "combinations (several seconds) must show it, return within 2.5 s, and report only answers of the untimed sequence before it.",
+    'design_ref': '5.23',
+    'assumptions': ["PARTIAL with respect to real time: the model has ticks, not seconds; that the thread writes the flag only after >= 1 s and that cancel_timer() "
+                    "prevents a later write are exercised by the real-timer runs and the cancel stress, not proved",
+                    "oracle on the implementation: solve_all's result is a prefix of the untimed answers, complete unless followed by the timeout message, which appears "
+                    "only when the hook fired; each solve() call returns the next untimed answer, `No more.` at the end, or the timeout message (only when the hook fired)"],
+}
+
 NOT_APPLICABLE = {
     'C24': 'Undefined behaviour (aliasing of raw-pointer writes, data races on static mut) is a property of pointers, borrows and threads, '
            'which a pure functional Lean model erases by construction; no executable Lean model can express it (DESIGN.md 5.24).',
 }
 
 LEVEL_TEXT = {
+    'C22': 'Proved in Lean (frame lemma over the whole engine, by induction on fuel): text written by earlier queries is never read, and once a query has been built the '
+           'globals the engine reads (variable counter, stop flag) depend on the query alone; hence the first request returns the same answer, successor node, counter and '
+           'flag in any two histories. Whole runs and histories with hook-forced and real timeouts are decided by the timer suite. One open known finding (F1).',
+    'C23': 'Proved in Lean for every tick at which the timer write may land: the stop flag is only ever set; without a pending write no request sets it, so solve / solve_all '
+           'never report a timeout then; solve returns the timeout message iff the flag is set on return, else `No more.` or the formatted answer; solve_all returns the '
+           'collected answers followed by the message iff the flag is set. Real time (>= 1 s, cancellation) is exercised by real-timer runs and a cancel stress, not proved.',
     'C10': 'Proved in Lean by structural recursion over all terms: renaming apart leaves a term unchanged once ids are erased (atoms, numbers, list cells with counts and '
            'tail markers, the empty list, nesting); there is one map from names to ids such that every variable carries the id of its name, distinct names get distinct '
            'ids, every new id is above the starting counter and at most the new counter; make_query starts from 0. Tied to unifiable.rs / rule.rs / goal.rs by the rename '
